@@ -196,7 +196,9 @@ func phase1(sim *Simulation) (stateFn, error) {
 	}
 
 	next, err := sim.executeQueue(info.InsertAbilityPhase1, action)
-	if err == nil {
+	// if the battle ended while executing the queue, Termination was already emitted and must stay
+	// the last event of the run
+	if err == nil && next != nil {
 		sim.Event.Phase1End.Emit(event.Phase1End{})
 	}
 	return next, err
